@@ -30,9 +30,35 @@ pub fn convert(f: &f::Layout) -> Result<s::Layout, String> {
     adjust_repeats(&mut res, &from_table, &alias_mappings, fm)?;
   }
   
+  for sm in &res {
+    check_no_repeated_keys(sm)?;
+  }
+  
   Ok(s::Layout {
     mappings: res
   })
+}
+
+// The mapper cannot work with a key listed twice on one side of a mapping
+// (it refuses such layouts by panicking), so reject them here with a message.
+fn check_no_repeated_keys(sm: &s::Mapping) -> Result<(), String> {
+  for i in 0 .. sm.from.len() {
+    for j in i+1 .. sm.from.len() {
+      if sm.from[i] == sm.from[j] {
+        return Err(format!("Key {} appears twice in the `from` side of the mapping {:?} -> {:?}", sm.from[i], sm.from, sm.to));
+      }
+    }
+  }
+  
+  for i in 0 .. sm.to.len() {
+    for j in i+1 .. sm.to.len() {
+      if sm.to[i] == sm.to[j] {
+        return Err(format!("Key {} appears twice in the `to` side of the mapping {:?} -> {:?}", sm.to[i], sm.from, sm.to));
+      }
+    }
+  }
+  
+  Ok(())
 }
 
 fn adjust_repeats<'a>(res: &mut Vec<s::Mapping>, from_table: &HashMap<FromSet, Vec<usize>>, alias_mappings: &'a HashMap<String, Vec<&'a f::AliasMapping>>, fm: &f::Mapping) -> Result<(), String> {
